@@ -1,4 +1,5 @@
 import AmVerif.Lemmas.World
+import AmVerif.Lemmas.Order
 import AmVerif.Gen.Skel
 /-!
 # C14 — dependencies are attributed to the asset being loaded, and only to it
@@ -185,5 +186,113 @@ example : (withFrame true none (fun s => (s.record true (.file "x" "a"), .ok (.i
 unconditionally): a key loaded again after a removal gets its OLD dependencies replaced. -/
 theorem C14_add_asset_always_sends :
     AmVerif.Gen.skel_hot_reloading_mod_HotReloader_add_asset = [.call .s_AddAsset, .call .s_send] := rfl
+
+/-! ## The registration of a load reaches the reloader before any later event
+
+`handle_events` (and `hot_reload`) drain the channel of `AddAsset` / `Clear` messages FIRST and only
+then look the events up in the dependency graph; a load sends its registration before it returns.
+So an event sent after the load returned finds the asset's dependencies in the graph (harness probe
+`hr.order`). -/
+
+/-- `Graph.insertAsset` never removes a node, and the registered asset and each of its dependencies
+have a node afterwards. -/
+theorem C14_graph_get_insertAsset_mono (g : Graph) (a : Dep) (deps : List Dep) (d : Dep) :
+    ((g.get d).isSome → ((g.insertAsset a deps).get d).isSome) ∧
+    (d ∈ deps → ((g.insertAsset a deps).get d).isSome) ∧
+    ((g.insertAsset a deps).get a).isSome :=
+  ⟨AmVerif.Model.graph_get_insertAsset_mono g a deps d, AmVerif.Model.graph_get_insertAsset_dep g a deps d,
+   AmVerif.Model.graph_get_insertAsset_self g a deps⟩
+
+/-- **Registration before event, local mode.** A registration `AddAsset key deps` is pending in the
+channel — anywhere in it, whatever the other pending messages are (`Clear`, other registrations, a
+later registration of the same key with other dependencies). Then `handle_events` keeps every event
+on an entry of `deps`: it is in the set of changed entries afterwards. -/
+theorem C14_registration_before_event (env : Env) (fuel : Nat) (s : St) (r : RSt) (evs : List Dep)
+    (key : Key) (deps : List Dep) (e : Dep)
+    (hm : Msg.addAsset key deps ∈ s.out) (he : e ∈ deps) (hd : r.dead = false) (hs : r.static_ = false)
+    (hev : e ∈ evs) :
+    e ∈ (handleEvents env fuel s r evs).2.toReload := by
+  rw [handleEvents_local' env fuel s r evs hd hs]
+  exact takeEvents_registered s r evs key deps e hm (Or.inl he) hev
+
+/-- …and **in static mode** (in fact in either mode, dead or not) for the state `handle_events` hands
+to `run_update` (`handleEvents_static`: `handleEvents = processMsgs ∘ runUpdate` of `takeEvents`). -/
+theorem C14_registration_before_event_static (s : St) (r : RSt) (evs : List Dep)
+    (key : Key) (deps : List Dep) (e : Dep)
+    (hm : Msg.addAsset key deps ∈ s.out) (he : e ∈ deps) (hev : e ∈ evs) :
+    e ∈ (takeEvents s r evs).2.toReload :=
+  takeEvents_registered s r evs key deps e hm (Or.inl he) hev
+
+/-- the same for an event on the registered asset itself -/
+theorem C14_registration_before_event_self (s : St) (r : RSt) (evs : List Dep) (key : Key) (deps : List Dep)
+    (hm : Msg.addAsset key deps ∈ s.out) (hev : Dep.asset key ∈ evs) :
+    Dep.asset key ∈ (takeEvents s r evs).2.toReload :=
+  takeEvents_registered s r evs key deps (.asset key) hm (Or.inr rfl) hev
+
+/-- **A load, then an event.** `load key` returned a handle for a key that was not cached, of a
+reloadable type in a cache with a reloader. Then the channel is exactly: what was pending before,
+what nested loads sent, and LAST the registration `AddAsset key deps` of the load itself; and every
+entry `d` of that `deps` is kept by the next `handle_events` — under any environment and fuel of the
+reloader, from any live reloader state in local mode, whatever the batch of events that contains `d`
+(in particular `[d]`), although nothing drained the channel in between. -/
+theorem C14_load_then_event (env : Env) (fuel : Nat) (s : St) (key : Key) (addr : Nat) (v : Val)
+    (hhot : recordsAsset (env.types key.ty).hot env.hasReloader = true) (hmiss : s.lookup key = none)
+    (hres : (step env fuel s (.load key)).2 = .handle addr v) :
+    ∃ nested deps, (step env fuel s (.load key)).1.out = s.out ++ nested ++ [.addAsset key deps] ∧
+      ∀ (env' : Env) (fuel' : Nat) (r : RSt), r.dead = false → r.static_ = false →
+        ∀ d, d ∈ deps → ∀ evs, d ∈ evs →
+          d ∈ (handleEvents env' fuel' (step env fuel s (.load key)).1 r evs).2.toReload := by
+  obtain ⟨nested, deps, hout⟩ := step_load_out env fuel s key addr v hhot hmiss hres
+  refine ⟨nested, deps, hout, fun env' fuel' r hd hs d hdd evs hev => ?_⟩
+  refine C14_registration_before_event env' fuel' _ r evs key deps d ?_ hdd hd hs hev
+  rw [hout]
+  exact List.mem_append_right _ List.mem_cons_self
+
+/-- …and in static mode (either mode): the entry is in the set of changed entries `run_update` starts from. -/
+theorem C14_load_then_event_static (env : Env) (fuel : Nat) (s : St) (key : Key) (addr : Nat) (v : Val)
+    (hhot : recordsAsset (env.types key.ty).hot env.hasReloader = true) (hmiss : s.lookup key = none)
+    (hres : (step env fuel s (.load key)).2 = .handle addr v) :
+    ∃ nested deps, (step env fuel s (.load key)).1.out = s.out ++ nested ++ [.addAsset key deps] ∧
+      ∀ (r : RSt) d, d ∈ deps → ∀ evs, d ∈ evs →
+        d ∈ (takeEvents (step env fuel s (.load key)).1 r evs).2.toReload := by
+  obtain ⟨nested, deps, hout⟩ := step_load_out env fuel s key addr v hhot hmiss hres
+  refine ⟨nested, deps, hout, fun r d hdd evs hev => ?_⟩
+  refine C14_registration_before_event_static _ r evs key deps d ?_ hdd hev
+  rw [hout]
+  exact List.mem_append_right _ List.mem_cons_self
+
+/-! Non-vacuity: the order is what matters. With the registration pending, `handle_events` (drain,
+then filter) keeps the event; a reloader that filtered the event BEFORE draining — `handle_events`
+on the state with an empty channel, then `processMsgs` of the real channel — drops it. -/
+example : (handleEvents exEnvHot 3 { out := [.addAsset ⟨0, "a"⟩ [.file "n" "s"]] } {} [.file "n" "s"]).2.toReload
+    = [.file "n" "s"] := by decide
+
+example :
+    (processMsgs { out := [.addAsset ⟨0, "a"⟩ [.file "n" "s"]] }
+      (handleEvents exEnvHot 3 { out := [] } {} [.file "n" "s"]).2).2.toReload = [] := by decide
+
+/-- …although the swapped reloader does register the asset afterwards: only the order differs -/
+example :
+    ((processMsgs { out := [.addAsset ⟨0, "a"⟩ [.file "n" "s"]] }
+      (handleEvents exEnvHot 3 { out := [] } {} [.file "n" "s"]).2).2.graph.get (.file "n" "s")).isSome = true := by
+  decide
+
+/-- a cache with reloader whose (hot) assets read the file `<id>.s` -/
+def exEnvOrder : Env :=
+  { read := fun _ _ _ => .ok [], readDir := fun _ _ => .ok [],
+    types := fun _ => { hot := true, prog := fun id => .read id "s" (fun _ => .ret (.int 1)) }, hasReloader := true }
+
+/-- `C14_load_then_event` is not vacuous: a load that returns a handle, registers a file, and the
+event on that file sent after the load returned is kept without any drain in between. -/
+example :
+    (step exEnvOrder 5 {} (.load ⟨0, "n"⟩)).2 = .handle 0 (.int 1) ∧
+    (step exEnvOrder 5 {} (.load ⟨0, "n"⟩)).1.out = [.addAsset ⟨0, "n"⟩ [.file "n" "s"]] ∧
+    (handleEvents exEnvOrder 5 (step exEnvOrder 5 {} (.load ⟨0, "n"⟩)).1 {} [.file "n" "s"]).2.toReload = [.file "n" "s"] := by
+  decide
+
+/-- a `Clear` and a re-registration with other dependencies pending after it do not matter -/
+example : (handleEvents exEnvHot 3
+    { out := [.addAsset ⟨0, "a"⟩ [.file "n" "s"], .clear, .addAsset ⟨0, "a"⟩ []] } {} [.file "n" "s"]).2.toReload
+    = [.file "n" "s"] := by decide
 
 end AmVerif.Props.C14
